@@ -261,7 +261,12 @@ class HP:
         tag = e[0]
         r = self.r
         if tag == "num":
-            return r(mpf(e[1]) * mpf(10) ** e[2])
+            v = mpf(e[1]) * mpf(10) ** e[2]
+            if self.noise is None and abs(v) < BIG and (v == 0 or abs(v) > mpf("1e-300")):
+                # the float64 meaning of a literal is the nearest double (so that a state equal to
+                # the double 0.9 *is* equal to the literal 0.9); the noisy runs perturb the decimal value
+                v = mpf(float(v))
+            return r(v)
         if tag == "int":
             return mpf(e[1])
         if tag == "var":
